@@ -228,7 +228,8 @@ def run(prop, tier, seed):
             probs = refchk.struct_valid(res, spec)
             before = set(refchk.struct_valid(data, spec))
             # `strict:` probes carry a structural defect on purpose: the save must raise or repair it
-            new = probs if tag.startswith("strict:") else [p for p in probs if p not in before]
+            # (the usage table is recomputed from the property table on every save, so a stale one in the input excuses nothing)
+            new = probs if tag.startswith("strict:") else [p for p in probs if p not in before or p.startswith("UPUS marks")]
             for p in new[:3]:
                 out.violations.append(dict(base, oracle="every emitted CHK is structurally valid", problem=p, key=None))
     # de-duplicate violations by key so that every known finding is reported once per run
@@ -348,11 +349,6 @@ def witness_maps(gen, spec):
 
 
 def classify_nonidempotent(data, spec):
-    """the one known cause: a unit-property slot whose only non-zero field is the owner byte"""
-    lay = refchk.layouts_of(spec)
-    for n, _, p in refchk.split_chunks(data):
-        if n == b"UPRP" and len(p) == 1280:
-            for r in refchk.fields_of(lay[b"UPRP"], p)["records"]:
-                if r["_owner_player"] and not any(v for k, v in r.items() if k != "_owner_player"):
-                    return "uprp-owner-only-slot-not-idempotent"
+    """no cause of a non-idempotent save is on record (the owner-only unit-property slot was repaired in the
+    repository, 21b171a; its witness stays in the corpus)"""
     return None
